@@ -4,6 +4,7 @@ package main
 
 import (
 	"go/token"
+	"strings"
 	"go/types"
 
 	"golang.org/x/tools/go/ssa"
@@ -134,6 +135,13 @@ func (e *NilEnv) at(v ssa.Value, b *ssa.BasicBlock, depth int) Nilness {
 		if x.Op == token.MUL {
 			if g, ok := x.X.(*ssa.Global); ok && e.globalNonNil(g) {
 				return NonNil
+			}
+			// exported error sentinels of the standard library (os.ErrNotExist, io.EOF, …) are never nil
+			if g, ok := x.X.(*ssa.Global); ok && g.Pkg != nil && !strings.HasPrefix(g.Pkg.Pkg.Path(), modPath) && !strings.Contains(g.Pkg.Pkg.Path(), ".") &&
+				strings.HasPrefix(g.Name(), "Err") || ok && g.Pkg != nil && g.Pkg.Pkg.Path() == "io" && g.Name() == "EOF" {
+				if isErrorType(derefType(g.Type())) {
+					return NonNil
+				}
 			}
 		}
 	case *ssa.Phi:
